@@ -40,3 +40,5 @@ def run(ctx):
     # judged by the one it inherits
     S.r10_hooks(ctx, ids=('R03.12', 'R03.13', 'R03.14'), only_hooks={'_yatiml_recognize'})
     R3.r03_15_tag_class_direction(ctx, 'R03.15')
+    from . import memo_rules as M
+    M.memo_sound(ctx, 'R03.M')
